@@ -9,6 +9,7 @@ import (
 	"fmt"
 	"os"
 	"strconv"
+	"strings"
 	"sync"
 
 	"github.com/jmeaster30/vore/libvore"
@@ -20,6 +21,11 @@ const (
 	srcPlain   = "find all 'a' maybe 'b'"
 	srcShared  = "set p to pattern 'a' or 'ab'\nfind all p in 'b', '1' maybe p\nfind all at most 2 (p = x) x"
 )
+
+const srcSharedProc = "set lim to transform set n to 1 + 1 set m to 'x' + 'y' if 2 > 1 then set n to n * 1 end if matchLength >= 3 - 1 then return 'L' + n end return match + m end\n" +
+	"set p to pattern at least 1 'a' begin set k to 2 * 2 return matchLength < k - 1 end\nreplace all p with lim '.'\nfind all p 'b'"
+
+var srcLongReads = "find all whole file\nfind all '" + strings.Repeat("c", 70) + "' any"
 
 func main() {
 	iters := 200
@@ -35,8 +41,12 @@ func main() {
 		func() { libvore.Compile(srcGroupsA) },
 		func() { libvore.Compile(srcGroupsB) },
 		func() { libvore.Compile(srcPlain) },
-		func() { libvore.Compile("set f to transform set v to 1 set w to 'q' return v * 2 end\nreplace all 'a' with f") },
-		func() { libvore.Compile("set g to transform set v to 'x' return head v end\nset p to pattern 'a' begin set k to matchLength return k == 1 end\nreplace all p with g") },
+		func() {
+			libvore.Compile("set f to transform set v to 1 set w to 'q' return v * 2 end\nreplace all 'a' with f")
+		},
+		func() {
+			libvore.Compile("set g to transform set v to 'x' return head v end\nset p to pattern 'a' begin set k to matchLength return k == 1 end\nreplace all p with g")
+		},
 		func() {
 			if _, err := libvore.Compile("find all 'abc"); err != nil {
 				_ = err.Error()
@@ -57,7 +67,20 @@ func main() {
 			}
 		},
 	}
+	nfixed := len(bodies)
 	for it := 0; it < iters; it++ {
+		// programs that are run for the first time concurrently (whatever the first Run initialises or
+		// caches inside the program is then written while another Run reads it), and long reads
+		bodies = bodies[:nfixed]
+		if fresh, err := libvore.Compile(srcSharedProc); err == nil {
+			bodies = append(bodies, func() { fresh.Run("aab a") }, func() { fresh.Run("a aaa") })
+		}
+		if lr, err := libvore.Compile(srcLongReads); err == nil {
+			bodies = append(bodies, func() { lr.Run(strings.Repeat("c", 70) + "x") }, func() { lr.Run(strings.Repeat("c", 70) + "yy") })
+		}
+		if rp, err := libvore.Compile("replace all 'ab' with 'X'"); err == nil {
+			bodies = append(bodies, func() { rp.Run("ab" + strings.Repeat("-", 80) + "ab" + strings.Repeat("=", 70)) }, func() { rp.Run(strings.Repeat("+", 66) + "ab" + strings.Repeat("~", 90)) })
+		}
 		var wg sync.WaitGroup
 		for _, b := range bodies {
 			wg.Add(1)
